@@ -148,7 +148,10 @@ def stepMain (s : LState) (c : Char) (next : Option Char) : LState :=
       (if next == some '|' then { (s.emit (.op "||")) with skip := true } else s.emit (.op "|"))
     else if c == '(' then
       -- `(a`: an open parenthesis immediately followed by another one (`next.index == open.index + 1`)
-      (if next == some '(' then s.emit (.op "(a") else s.emit (.op "("))
+      -- `(w`: immediately preceded by a word (`!(`, `name=(`); both: `(wa`
+      (let w := s.cur.isSome
+       let a := next == some '('
+       s.emit (.op (if w then (if a then "(wa" else "(w") else (if a then "(a" else "("))))
     else if c == ')' then s.emit (.op ")")
     else if c == '<' then
       (if next == some '<' then
@@ -216,6 +219,7 @@ inductive Cmd where
   | group (body : List Cmd)
   | subsh (body : List Cmd)
   | andor (l : Cmd) (isAnd : Bool) (r : Cmd)
+  | neg (c : Cmd)                              -- `! command`
   deriving Repr, Inhabited
 
 /-- parser result: value and remaining tokens, or "the tokens ran out", or a syntax error -/
@@ -286,6 +290,42 @@ def simpleWords : List Tok → List Word → Option Nat → (List Word × Option
   | .here k :: rest, ws, _ => simpleWords rest ws (some k)
   | ts, ws, h => (ws, h, ts)
 
+/-- an open parenthesis token: (immediately preceded by a word, immediately followed by `(`) -/
+def openTok : Tok → Option (Bool × Bool)
+  | .op "(" => some (false, false)
+  | .op "(a" => some (false, true)
+  | .op "(w" => some (true, false)
+  | .op "(wa" => some (true, true)
+  | _ => none
+
+/-- `is_portable_name` of a literal word -/
+def portableName (w : Word) : Bool :=
+  match Word.plain? w with
+  | some (c :: cs) => isNameStart c && cs.all isNameChar
+  | _ => false
+
+/-- an unquoted literal word `name=` (candidate array assignment) -/
+def endsWithEq (w : Word) : Bool :=
+  match Word.plain? w with
+  | some cs => cs.getLast? == some '=' && cs.length > 1
+  | none => false
+
+/-- a command name ending with `:` (`ends_with_colon`: at least two units, the last an unquoted `:`) -/
+def endsWithColon (w : Word) : Bool :=
+  w.length > 1 && w.getLast? == some (.lit ':' false)
+
+/-- the values of an array assignment, up to the closing parenthesis -/
+def skipArray : List Tok → PR Unit
+  | [] => .inc
+  | .word _ _ :: rest => skipArray rest
+  | .nl :: rest => skipArray rest
+  | .op ")" :: rest => .ok () rest
+  | _ => .err
+
+def isCompound : Cmd → Bool
+  | .ifc .. | .loop .. | .group .. | .subsh .. => true
+  | _ => false
+
 mutual
   /-- `Parser::command` (simple or compound) at a token that has been alias-substituted -/
   def pCommand (cfg : PCfg) : Nat → List Tok → PR Cmd
@@ -306,16 +346,61 @@ mutual
               | c :: r' => if tokKeyword c == some "}" && !body.isEmpty then .ok (.group body) r' else .err)
            | .inc => .inc
            | .err => .err)
+        | some "!" =>
+          -- `Parser::pipeline`: in portable mode `!(` is rejected
+          (match rest with
+           | [] => if cfg.eof then .err else .inc
+           | t2 :: _ =>
+             if cfg.portable && (openTok t2).map (·.1) == some true then .err else
+             match pCommand cfg n rest with
+             | .ok c r => .ok (.neg c) r
+             | .inc => .inc
+             | .err => .err)
         | some _ => .err
         | none =>
-          match t with
-          | .op "(" => pSub cfg n rest
-          | .op "(a" =>
+          match openTok t with
+          | some (_, adjNext) =>
             -- `Parser::subshell`: in portable mode `((` is rejected
-            if cfg.portable then .err else pSub cfg n rest
+            if cfg.portable && adjNext then .err else
+            (match pSub cfg n rest with
+             | .ok c r =>
+               -- `full_compound_command`: a subshell does not end with a reserved word, so in
+               -- portable mode a clause-delimiting reserved word may not follow it directly
+               (match r with
+                | t2 :: _ => if cfg.portable && (tokKeyword t2).isSome && isClauseDelim t2 then .err
+                             else .ok c r
+                | [] => .ok c r)
+             | .inc => .inc
+             | .err => .err)
+          | none =>
+          match t with
           | .word _ _ | .here _ =>
             let (ws, h, r) := simpleWords (t :: rest) [] none
-            .ok (.simple ws h) r
+            -- `simple_command`: a command name ending with `:` is rejected in portable mode
+            if cfg.portable && (match t with | .word w _ => endsWithColon w | _ => false) then .err else
+            (match ws, h, r with
+             | [w], none, t2 :: r' =>
+               (match openTok t2 with
+                | some (adjWord, _) =>
+                  if adjWord && endsWithEq w then
+                    -- array assignment `name=(…)`: parsed to its end, then rejected in portable mode
+                    (match skipArray r' with
+                     | .ok _ r'' => if cfg.portable then .err else .ok (.simple [] none) r''
+                     | .inc => if cfg.eof then .err else .inc
+                     | .err => .err)
+                  else
+                    -- `short_function_definition`: `name ( ) compound-command`
+                    (match r' with
+                     | [] => if cfg.eof then .err else .inc
+                     | .op ")" :: r'' =>
+                       if cfg.portable && !portableName w then .err else
+                       (match pCommand cfg n (skipNl r'') with
+                        | .ok body r3 => if isCompound body then .ok (.simple [] none) r3 else .err
+                        | .inc => .inc
+                        | .err => .err)
+                     | _ => .err)
+                | none => .ok (.simple ws h) r)
+             | _, _, _ => .ok (.simple ws h) r)
           | _ => .err
 
   def pSub (cfg : PCfg) : Nat → List Tok → PR Cmd
@@ -424,9 +509,7 @@ mutual
           match t with
           | .word _ _ => !isClauseDelim t
           | .here _ => true
-          | .op "(" => true
-          | .op "(a" => true
-          | _ => false
+          | t => (openTok t).isSome
         if !startsCommand then .ok [] (t :: rest) else
         match pAndOr cfg n (t :: rest) with
         | .inc => .inc
